@@ -1,3 +1,4 @@
+import NmVerif.Props.C04Gen
 import NmVerif.Lemmas.Tile
 import NmVerif.Lemmas.Pad
 import NmVerif.Lemmas.Take
